@@ -26,7 +26,7 @@ VARIABLES
   cur,       \* chunk being written: [id, data, dst] (dst = remaining destinations) or NoCur
   seedpos,   \* <<seed index, item index>> of the next seed chunk
   fetch,     \* ids still to fetch, in descriptor order
-  phase,     \* "start", "reorder", "seed", "fetch", "done", "crashed"
+  phase,     \* "start", "reorder", "seed", "fetch", "resize", "done", "crashed"
   run,       \* number of the current run (a restart increments it)
   written,   \* history: offsets written in this run
   fetched,   \* history: ids fetched from the archive in this run
@@ -143,14 +143,28 @@ FetchChunk ==
   /\ fetch' = Tail(fetch)
   /\ UNCHANGED <<sc, out, scan, rem, mem, plan, seedpos, phase, run, written>>
 
-Succeed ==
+\* everything is written; what is left is the resize
+FetchDone ==
   /\ phase = "fetch" /\ cur = NoCur /\ fetch = <<>>
-  /\ phase' = "done"
+  /\ phase' = "resize"
   /\ UNCHANGED <<sc, out, scan, rem, mem, plan, cur, seedpos, fetch, run, written, fetched, bad>>
+
+\* clone_cmd.rs: a regular file is cut (or extended) to the source length - the last step that touches the output, and like every
+\* other one a point at which the run can be interrupted (Crash).  `always` = FALSE is a documented NEGATIVE variant: "a run that
+\* wrote nothing has nothing to resize" - wrong when the run before was interrupted between its last write and its resize.
+IsBlockDev == "kind" \in DOMAIN sc /\ sc.kind = "blockdev"
+ResizeStep(always) ==
+  /\ phase = "resize"
+  /\ out' = IF IsBlockDev \/ (~always /\ written = {}) THEN out
+            ELSE [p \in 1..SrcLen(sc) |-> IF p <= Len(out) THEN out[p] ELSE JUNK]
+  /\ phase' = "done"
+  /\ UNCHANGED <<sc, scan, rem, mem, plan, cur, seedpos, fetch, run, written, fetched, bad>>
+Resize == ResizeStep(TRUE)
+Succeed == FetchDone \/ Resize
 
 \* the process dies (or a write fails) between two steps
 Crash ==
-  /\ phase \in {"reorder", "seed", "fetch"}
+  /\ phase \in {"reorder", "seed", "fetch", "resize"}
   /\ phase' = "crashed"
   /\ UNCHANGED <<sc, out, scan, rem, mem, plan, cur, seedpos, fetch, run, written, fetched, bad>>
 
@@ -178,6 +192,7 @@ NoBrokenRule == bad = ""
 \* C02 / C03 / C05: success implies the output starts with exactly the source and nothing is left to write
 ExactOnSuccess == phase = "done" =>
   /\ Len(out) >= SrcLen(sc) /\ SubSeq(out, 1, SrcLen(sc)) = SrcFile(sc)
+  /\ IsBlockDev \/ Len(out) = SrcLen(sc)         \* a regular file is also resized to the source length (C03), after a restart too (C05)
   /\ \A id \in Ids : rem[id] = {}
 
 \* C03 last sentence: a reusable chunk that still has destinations to be written is available -
@@ -195,10 +210,10 @@ FetchExactlyMissing ==
   /\ phase = "done" => fetched = NeededIds \ Provided
 
 \* the reorder phase places every reusable chunk (nothing reusable is left for the archive)
-ReorderPlacesAll == phase \in {"seed", "fetch", "done"} => \A id \in ReusableIds(sc, scan) : rem[id] = {}
+ReorderPlacesAll == phase \in {"seed", "fetch", "resize", "done"} => \A id \in ReusableIds(sc, scan) : rem[id] = {}
 
 TypeOK ==
-  /\ phase \in {"start", "reorder", "seed", "fetch", "done", "crashed"}
+  /\ phase \in {"start", "reorder", "seed", "fetch", "resize", "done", "crashed"}
   /\ \A id \in Ids : rem[id] \subseteq TargetOffs(sc, id)
   /\ DOMAIN mem \subseteq Ids
 =============================================================================
